@@ -4,9 +4,9 @@
 package txtgen
 
 import (
-	"strings"
 	"bytes"
 	"math/rand"
+	"strings"
 
 	xt "golang.org/x/tools/txtar"
 )
